@@ -1287,6 +1287,8 @@ impl LsmTree {
         }
         INGEST_LINK.click();
         hard_link(&sst_path, target)?;
+        #[cfg(rescrv_blue_verif)]
+        crate::verif::yield_point("ingest:linked");
         edit.add(&setsum.hexdigest())?;
         if let Some(log_num) = log_num {
             edit.info('L', &format!("{log_num}"))?;
@@ -1307,7 +1309,15 @@ impl LsmTree {
                         break 'inner compaction;
                     } else {
                         COMPACTION_THREAD_NO_COMPACTION.click();
+                        #[cfg(rescrv_blue_verif)]
+                        if crate::verif::single_step() {
+                            return Ok(());
+                        }
+                        #[cfg(rescrv_blue_verif)]
+                        crate::verif::park(crate::verif::COMPACT);
                         mutex = self.compact.wait(mutex).unwrap();
+                        #[cfg(rescrv_blue_verif)]
+                        crate::verif::unpark(crate::verif::COMPACT);
                     }
                 }
             };
@@ -1316,6 +1326,13 @@ impl LsmTree {
                 let version = self.take_snapshot();
                 let _ = version.version.release_compaction(compaction);
                 return Err(err);
+            }
+            #[cfg(rescrv_blue_verif)]
+            {
+                crate::verif::COMPACTIONS_DONE.fetch_add(1, std::sync::atomic::Ordering::SeqCst);
+                if crate::verif::single_step() {
+                    return Ok(());
+                }
             }
         }
     }
@@ -1512,7 +1529,11 @@ impl LsmTree {
                     .with_debug_field("discard_setsum", discard_setsum.hexdigest()),
             );
         }
+        #[cfg(rescrv_blue_verif)]
+        crate::verif::yield_point("compaction:linked");
         let ret = self.apply_manifest_compaction(compaction, discard_setsum, mani_edit, outputs);
+        #[cfg(rescrv_blue_verif)]
+        crate::verif::yield_point("compaction:applied");
         for path in paths.into_iter() {
             COMPACTION_REMOVE.click();
             remove_file(&path).with_debug_field("path", &path)?;
@@ -1531,7 +1552,11 @@ impl LsmTree {
         let mut version = self.take_snapshot();
         while version.version.should_stall_ingest() {
             INGEST_STALL.click();
+            #[cfg(rescrv_blue_verif)]
+            crate::verif::park(crate::verif::STALL);
             mutex = self.stall.wait(mutex).unwrap();
+            #[cfg(rescrv_blue_verif)]
+            crate::verif::unpark(crate::verif::STALL);
             let mut version2 = self.take_snapshot();
             std::mem::swap(&mut version, &mut version2);
             drop(version2);
@@ -1672,6 +1697,34 @@ impl LsmTree {
         let cursor = PruningCursor::new(version_scan, u64::MAX)?;
         let cursor = BoundsCursor::new(cursor, start_bound, end_bound)?;
         Ok(SnapshotCursor::new(cursor, version))
+    }
+}
+
+////////////////////////////////////////// verification hooks ///////////////////////////////////////
+
+#[cfg(rescrv_blue_verif)]
+impl LsmTree {
+    /// The metadata of every file of the current version, by level.
+    pub fn verif_levels(&self) -> Vec<Vec<SstMetadata>> {
+        let version = Arc::clone(&*self.version.lock().unwrap());
+        version
+            .levels
+            .iter()
+            .map(|level| level.ssts.iter().map(|sst| (**sst).clone()).collect())
+            .collect()
+    }
+
+    /// Would an ingest wait for compaction right now?
+    pub fn verif_should_stall(&self) -> bool {
+        let version = Arc::clone(&*self.version.lock().unwrap());
+        version.should_stall_ingest()
+    }
+
+    /// Number of compactions selected but not yet applied.
+    pub fn verif_ongoing(&self) -> usize {
+        let version = Arc::clone(&*self.version.lock().unwrap());
+        let ongoing = version.ongoing.lock().unwrap();
+        ongoing.len()
     }
 }
 
